@@ -88,7 +88,7 @@ def streams(rng, tier):
     for ty in DTYPES:
         for mask in MASKS:
             n = len(mask)
-            for _ in range(10 if thorough else 3):
+            for _ in range(24 if thorough else 3):
                 fn = rng.choice(OPS)
                 form = rng.choice(["vec", "vec", "list", "scalar", "rscalar", "rlist"])
                 tb = rng.choice(COMPAT[ty])
@@ -106,11 +106,13 @@ def streams(rng, tier):
     for ty in DTYPES:
         for mask in MASKS:
             n = len(mask)
-            combos = [(f, g) for f in CMPS for g in ("vec", "list", "scalar")]
+            combos = [(f, g) for f in CMPS for g in ("vec", "list", "scalar", "vec_same")]
             for fn, form in (combos if thorough else rng.sample(combos, 4)):
                 c = {"op": "cmp", "fn": fn, "form": form, "a": _vals(rng, ty, mask)}
                 tb = ty if rng.random() < 0.85 else rng.choice(COMPAT[ty])
-                if form == "scalar":
+                if form == "vec_same":                       # v <op> v: one object on both sides
+                    c["b"] = c["a"]
+                elif form == "scalar":
                     c["b"] = rng.choice(POOL[tb] + ([["N"]] if fn in ("eq", "ne") else []))
                 else:
                     m = n if rng.random() < 0.9 else n + 1
@@ -151,7 +153,7 @@ def streams(rng, tier):
     for ty in DTYPES:
         for mask in MASKS:
             for fn in REDS + ["len"]:
-                for _ in range(2 if thorough else 1):
+                for _ in range(4 if thorough else 1):
                     cs.append(_typed({"op": "red", "fn": fn, "a": _vals(rng, ty, mask)}, ty))
     out.append(("reduce", cs))
     # ---- isna / dropna / fillna
@@ -231,7 +233,7 @@ def _obs_cmp(case):
         o["ys"] = 0 if b is None else it.id(b)
     else:
         b = [V.dec(t) for t in case["b"]]
-        other = Vector(list(b)) if form.startswith("vec") else list(b)
+        other = v if form == "vec_same" else (Vector(list(b)) if form.startswith("vec") else list(b))
         ys = b
         o["ys"] = [it.id(y) for y in b]
         if form.startswith("vec"):
